@@ -16,7 +16,9 @@ def specs(tier):
          gridlab.tokamak_spec("cdn", fpol="linear", options={"orthogonal": False}, extract=ex),
          gridlab.circular_spec(options={"poloidal_spacing_method": "linear", "finecontour_Nfine": 200}, extract=ex),
          # FineContour left visibly non-uniform (relaxed equalisation tolerance): the integral must use the actual point distances
-         gridlab.tokamak_spec("lsn", fpol="const", options={"finecontour_Nfine": 120, "finecontour_atol": 1.0e-3}, extract=ex)]
+         gridlab.tokamak_spec("lsn", fpol="const", options={"finecontour_Nfine": 120, "finecontour_atol": 1.0e-3}, extract=ex),
+         # the option that modifies Bpxy at the y-faces next to an X-point (it acts when Bp > 0: psi increasing outward)
+         gridlab.tokamak_spec("ldn", fpol="linear", options={"cap_Bp_ylow_xpoint": True}, extract=ex)]
     if tier == "thorough":
         S += [gridlab.tokamak_spec("ldn", fpol="linear", extract=ex), gridlab.tokamak_spec("udn", fpol="const", options={"orthogonal": False}, extract=ex),
               gridlab.tokamak_spec("usn", fpol="negconst", options={"y_boundary_guards": 2}, extract=ex),
@@ -109,9 +111,12 @@ def oracle(res, g, lines, pend):
             bad.append(("shiftangle-open", "ShiftAngle is defined (%r) at radial index %d, which has no closed flux surface" % (float(sa_all[x]), x)))
             break
     # dphidy and ShiftTorsion
-    e = np.nanmax(np.abs(v["dphidy"] - v["hy"] * v["Btxy"] / (v["Bpxy"] * v["Rxy"]))) / max(1e-300, np.nanmax(np.abs(v["dphidy"])))
-    if e > 1e-12:
-        bad.append(("dphidy", "dphidy differs from hy*Btxy/(Bpxy*Rxy) by %.3g" % e))
+    for suf in ("", "_xlow", "_ylow"):
+        if "dphidy" + suf not in v:
+            continue
+        e = np.nanmax(np.abs(v["dphidy" + suf] - v["hy" + suf] * v["Btxy" + suf] / (v["Bpxy" + suf] * v["Rxy" + suf]))) / max(1e-300, np.nanmax(np.abs(v["dphidy" + suf])))
+        if e > 1e-12:
+            bad.append(("dphidy" + suf, "dphidy%s differs from hy*Btxy/(Bpxy*Rxy) at the same location by %.3g (relative)" % (suf, e)))
     dx = v["dx"]
     nx = dx.shape[0]
     st = v["ShiftTorsion"]
